@@ -265,6 +265,53 @@ mut("C22", "versions_after_filter", MAIN, """    let mut modules = cwe_checker_l
     modules.retain(|module| module.name != "CWE78");
     if args.module_versions {""", ["module-versions|before-filter"], "module listing after a filter")
 
+# ---------------- C21
+M.append(("C21", "config_field_renamed", {"edits": [
+    {"file": L + "checkers/cwe_676.rs", "find": "pub struct Config {\n    symbols: Vec<String>,", "replace": "pub struct Config {\n    symbol_list: Vec<String>,"},
+    {"file": L + "checkers/cwe_676.rs", "find": "&config.symbols)", "replace": "&config.symbol_list)"}],
+    "expect": ["R1|config.json|CWE676"], "desc": "configuration field renamed in the struct only"}))
+mut("C21", "pi_table_drops_cwe190", MAIN, '"CWE119", "CWE134", "CWE190", "CWE252"', '"CWE119", "CWE134", "CWE252"', ["R2|CWE190|needs"], "a check needing pointer inference is not in the table")
+mut("C21", "sort_removed", MAIN, "    all_cwes.sort();\n", "", ["R3|sorted-before-print"], "final sort removed")
+mut("C21", "foreign_module_name", L + "checkers/cwe_782.rs", "String::from(CWE_MODULE.name),", "String::from(crate::checkers::cwe_676::CWE_MODULE.name),", ["R4|checkers::cwe_782"], "warning carries another check's name")
+mut("C21", "quiet_keeps_logs", MAIN, "all_logs = Vec::new(); // Suppress all log messages since the `--quiet` flag is set.", "let _ = &all_logs;", ["R3|quiet-empties-logs"], "--quiet no longer discards logs")
+mut("C21", "json_truncated", L + "utils/log.rs", "serde_json::to_string_pretty(&cwes).unwrap()", "serde_json::to_string_pretty(&cwes[..cwes.len().min(100)]).unwrap()", ["R3|json-serialises-whole-vector"], "JSON output truncated")
+mut("C21", "sort_after_print_cond", MAIN, "    all_cwes.sort();\n", "    if !args.json {\n        all_cwes.sort();\n    }\n", ["R3|sorted-before-print"], "sorting only for text output")
+
+# ---------------- C25
+LOG = L + "utils/log.rs"
+mut("C25", "try_recv", LOG, "while let Ok(log_thread_msg) = receiver.recv() {", "while let Ok(log_thread_msg) = receiver.try_recv() {", ["R2|blocking-recv"], "non-blocking receive loses pending messages")
+mut("C25", "join_before_terminate", LOG, """        let _ = self.msg_sender.send(LogThreadMsg::Terminate);
+        if let Some(handle) = self.thread_handle.take() {
+            handle.join().unwrap()
+        } else {
+            (Vec::new(), Vec::new())
+        }""", """        if let Some(handle) = self.thread_handle.take() {
+            let res = handle.join().unwrap();
+            let _ = self.msg_sender.send(LogThreadMsg::Terminate);
+            res
+        } else {
+            (Vec::new(), Vec::new())
+        }""", ["R1|collect|terminate-before-join"], "join before Terminate")
+mut("C25", "first_wins", LOG, "collected_cwes.insert(address.clone(), cwe_warning);", "collected_cwes.entry(address.clone()).or_insert(cwe_warning);", ["R3|cwe|last-wins"], "first warning per address wins")
+mut("C25", "general_logs_sorted", LOG, """        let logs = logs_with_address
+            .values()""", """        general_logs.sort();
+        let logs = logs_with_address
+            .values()""", ["R3|containers-not-reordered"], "address-less logs sorted")
+mut("C25", "bounded_channel", LOG, "let (sender, receiver) = crossbeam_channel::unbounded();\n        let thread_handle", "let (sender, receiver) = crossbeam_channel::bounded(1024);\n        let thread_handle", ["R1|spawn|unbounded-channel"], "bounded log channel")
+mut("C25", "general_logs_dropped", LOG, """            .values()
+            .cloned()
+            .chain(general_logs)
+            .collect();""", """            .values()
+            .cloned()
+            .collect();""", ["R3|all-containers-returned"], "address-less logs never returned")
+mut("C25", "log_insert_located_first_wins", LOG, "logs_with_address.insert(tid.address.clone(), log_message);", "logs_with_address.entry(tid.address.clone()).or_insert(log_message);", ["R3|log|located-last-wins"], "first located log per address wins")
+mut("C25", "break_on_empty_address", LOG, '[] => panic!("Unexpected CWE warning without origin address"),', "[] => break,", ["R2|exits-only"], "collector stops at a malformed warning")
+mut("C25", "cwe476_drain_early", L + "checkers/cwe_476.rs", """    for edge in general_context.get_graph().edge_references() {
+        let Edge::ExternCallStub(jmp) = edge.weight() else {""", """    let early: Vec<CweWarning> = cwe_receiver.try_iter().collect();
+    drop(early);
+    for edge in general_context.get_graph().edge_references() {
+        let Edge::ExternCallStub(jmp) = edge.weight() else {""", ["R4|cwe476|drain-after"], "private channel drained before the computations")
+
 for prop, name, spec in M:
     d = os.path.join(V, "mutants", prop)
     os.makedirs(d, exist_ok=True)
